@@ -85,7 +85,10 @@ func (dl *datalog) openSegment(name string, id uint16, seqID uint64) (*segment, 
 	}
 
 	meta := &segmentMeta{}
-	if !f.empty() {
+	// A sealed segment can be empty (its records were truncated by recovery or the first record didn't fit), its
+	// meta must be read too, otherwise the segment becomes writable again behind segments with newer records.
+	_, metaStatErr := dl.opts.FileSystem.Stat(name + metaExt)
+	if !f.empty() || metaStatErr == nil {
 		metaName := name + metaExt
 		if err := readGobFile(dl.opts.FileSystem, metaName, &meta); err != nil {
 			logger.Printf("error reading segment meta %d: %v", id, err)
